@@ -177,12 +177,88 @@ func c05Shape(filter, k string) string {
 	return "other"
 }
 
+// c05Race: E3. A new subscription racing a retained publish on a matching topic: whatever
+// the interleaving, the subscriber must never be sent a SUPERSEDED retained message after it
+// has already been sent the newer one (the retained copy sent for a subscription is the
+// latest retained publish at the time it is sent).
+func c05Race(arg string) explore.RunFn {
+	return func(prefix []int) explore.Outcome {
+		w := world.New(prefix, world.Config{})
+		defer w.End()
+		p := w.Connect(world.ConnectPacket("p", 4, true))
+		s := w.Connect(world.ConnectPacket("s", 5, true))
+		old := pub("x", "old", 0, 0)
+		old.Retain = true
+		p.Do(old)
+		if arg == "presub" {
+			s.Do(sub(1, "x", 0)) // already subscribed with another filter: live copies arrive too
+		}
+		p.Poll()
+		s.Poll()
+		base := len(s.Recv)
+		nw := pub("x", "new", 0, 0)
+		nw.Retain = true
+		s.Send(sub(2, "x/#", 0))
+		p.Send(nw)
+		w.Explore(true)
+		w.Run()
+		w.Explore(false)
+		s.Poll()
+		o := explore.Outcome{Points: w.X.Points, Divergence: w.X.Divergence(), Steps: w.X.Steps(), Counters: map[string]int{}}
+		o.Viol = runtimeViolations(w)
+		seenNew := false
+		var seq []string
+		for _, pk := range s.Recv[base:] {
+			if pk.Type != ref.PUBLISH {
+				seq = append(seq, ref.TypeNames[pk.Type])
+				continue
+			}
+			seq = append(seq, fmt.Sprintf("%s(ret=%v)", pk.Payload, pk.Retain))
+			if string(pk.Payload) == "new" {
+				seenNew = true
+			}
+			if string(pk.Payload) == "old" {
+				o.Counters["old_retained_delivered"]++
+				if seenNew {
+					// when was the old message superseded relative to the SUBACK?
+					iRet, iAck := -1, -1
+					for i, ev := range w.Events {
+						if ev.Name == "OnRetainMessage" && ev.Tag == "new" && iRet < 0 {
+							iRet = i
+						}
+						if ev.Name == "OnPacketSent" && ev.Client == "s" && ev.Type == ref.SUBACK && ev.PID == 2 {
+							iAck = i
+						}
+					}
+					when := "between-scan-and-send"
+					if iRet >= 0 && iAck >= 0 && iRet < iAck {
+						when = "before-suback-was-written"
+					}
+					o.Viol = append(o.Viol, explore.Violation{Key: "c05:stale-retained-after-newer:superseded-" + when, Msg: fmt.Sprintf("subscriber was sent the superseded retained message (retain flag set) after the newer one: %v", seq)})
+				}
+			}
+		}
+		if seenNew {
+			o.Counters["new_delivered"]++
+		}
+		o.Obs = strings.Join(seq, " ")
+		return o
+	}
+}
+
 func init() {
+	explore.RegisterDFS("c05race", c05Race)
 	explore.RegisterBFS("c05", c05Run)
 	explore.Register("C05", func(c *explore.Ctx) {
 		c.Rep.Level = "model_checking"
 		c.Rep.Assumption("one operation at a time, broker run to quiescence under the deterministic default schedule (sequential histories)")
 		c.Rep.Assumption("state = reflective dump of *Server plus reference-model state; two histories are merged only if byte-identical")
+		bounds := []explore.Bounds{{Preempt: 0}, {Preempt: 1}, {Preempt: 2}}
+		if !c.Quick() {
+			bounds = append(bounds, explore.Bounds{Preempt: 3})
+		}
+		explore.IterateDFS(c, "c05race", "", bounds, 12*time.Second)
+		explore.IterateDFS(c, "c05race", "presub", bounds, 12*time.Second)
 		if c.Quick() {
 			explore.RunBFS(c, "c05", "ra=1", 0, 50*time.Second)
 			explore.RunBFS(c, "c05", "ra=0", 4, 15*time.Second)
